@@ -324,13 +324,13 @@ GcSend ==
 
 \* ... and answered (:1960); the handler then makes sure the tip it asked for is
 \* still on the chain (re-org while waiting for the answers).
-\* sp # 0: the answer of (honest) peer sp is preceded by a cfcheckpt message of
-\* that peer that belongs to an older request (other stop hash); the callback
-\* ignores it.
+\* sp # 0: the answer of honest peer sp (the lowest-numbered one, honest peers
+\* are interchangeable) is preceded by a cfcheckpt message of that peer that
+\* belongs to an older request (other stop hash); the callback ignores it.
 GcRecv(rsS, sp) ==
   /\ pc = "q_cp" /\ nh < MaxSteps
   /\ rsS \in RSets("cp")
-  /\ (sp = 0 \/ (sp \in rsS /\ Kind(sp) = "H"))
+  /\ (sp = 0 \/ (sp \in rsS /\ Kind(sp) = "H" /\ \A q \in rsS : Kind(q) = "H" => sp <= q))
   /\ nh' = nh + 1
   /\ UNCHANGED <<sc, bs, fs, ban, memH, memF, lastH, lastC, good, ctx, cpq, nre, nex>>
   /\ IF LostTip
